@@ -809,7 +809,7 @@ func pollIntervalUsable(c *core.Ctx) string {
 
 func Run(c *core.Ctx) core.FinishOpts {
 	// tumble
-	nT := c.Pick(650, 26000)
+	nT := c.Pick(650, 130000)
 	rngT := c.Rng("tumble")
 	tcs := make([]*tumbleCase, nT)
 	for i := range tcs {
@@ -833,7 +833,7 @@ func Run(c *core.Ctx) core.FinishOpts {
 	c.Note("range_cases", len(rcs))
 	// poll
 	interval := pollIntervalUsable(c)
-	nP := c.Pick(40, 300)
+	nP := c.Pick(40, 600)
 	rngP := c.Rng("poll")
 	pcs := make([]*pollCase, nP)
 	for i := range pcs {
@@ -851,7 +851,7 @@ func Run(c *core.Ctx) core.FinishOpts {
 			"range: all (start,end) in [-6,6]^2 plus 20 extremes near Min/MaxInt64 and 2^31/2^32/2^53 plus expression arguments, with and without optimizer; " +
 			"poll: scripted source whose successive runs return different snapshots (unchanged, empty, grown, shrunk, fresh), stopped by a consumer error at the k-th watermark, k in 1..5; " +
 			"non-trivial = tumble case with >= 2 records, non-empty range, poll case with a non-empty retraction; distinct by the case's parameters",
-		Floor:      c.Pick(500, 15000),
+		Floor:      c.Pick(500, 80000),
 		Exhaustive: true,
 		Assumptions: []string{
 			"tumble multiples are relative to Go's zero time (year 1), the origin time.Truncate documents; alignment to the Unix epoch is counted, not judged (differs only for L=7s)",
